@@ -78,7 +78,9 @@ TWDone(th, w, how) == <<[th EXCEPT !.pc = th.cont, !.cont = NONE, !.aux = how], 
 \* world: the user's Unmarshal returns
 UMDone(th) == [th EXCEPT !.pc = "mr.done"]
 \* world: the user's Error() method (called by MarshalError inside SendError) returns
-MADone(th) == [th EXCEPT !.pc = "tc.pkt"]
+MADone(th) == [th EXCEPT !.pc = IF th.op = "MsgSend" THEN "ms.chk" ELSE "tc.pkt"]
+\* a send whose argument carries gate = TRUE parks inside the user's Marshal (under the stream's write lock)
+ParkMarshal(arg) == "gate" \in DOMAIN arg /\ arg.gate
 \* SendError evaluates the user's err.Error() after the state transition and before the packet is written
 AfterMark(th) == IF th.op = "SendError" /\ th.arg.gate THEN "ma" ELSE "tc.pkt"
 
@@ -115,8 +117,8 @@ Do(s, th, w, self, manual) ==
   CASE
   (* -------- MsgSend / RawWrite -------- *)
      th.pc = "ms.once" -> R([s EXCEPT !.once = "done"], Goto(th, "ms.wlock"), w)
-  [] th.pc = "ms.wlock" ->
-        R([s EXCEPT !.lk.write = self, !.msgid = s.msgid + 1], [th EXCEPT !.pc = "ms.chk", !.k = th.arg.nfr], w)
+  [] th.pc = "ms.wlock" ->      \* MsgSend calls the user's Marshal right after taking the write lock ("ma" when it parks there)
+        R([s EXCEPT !.lk.write = self, !.msgid = s.msgid + 1], [th EXCEPT !.pc = IF th.op = "MsgSend" /\ ParkMarshal(th.arg) THEN "ma" ELSE "ms.chk", !.k = th.arg.nfr], w)
   [] th.pc = "ms.chk" ->
         IF s.sig.send # U THEN R(s, Fin(th, s.sig.send, "ms.wunlock"), w)
         ELSE IF s.sig.term # U THEN R(s, Fin(th, s.sig.term, "ms.wunlock"), w)
